@@ -548,15 +548,39 @@ def decide(prop, spec, seed, tier, stage_reports, wall):
 def run_property(prop, spec, seed, tier):
     t0 = time.time()
     shutil.rmtree(os.path.join(WORK, prop), ignore_errors=True)
-    reports = []
-    for st in spec["stages"]:
-        if tier not in st.tiers:
-            continue
+    stages = [st for st in spec["stages"] if tier in st.tiers]
+    # builds first (sequential: cargo uses every core), then the single-process stages side by side,
+    # then the sharded ones (which fan out over all cores themselves)
+    for st in stages:
+        if st.kind in ("plain", "sharded"):
+            build(st.variant, st.pkg)
+        elif st.kind == "tsan":
+            build("tsan", st.pkg)
+    results = {}
+
+    def one(i_st):
+        i, st = i_st
         t1 = time.time()
-        rep = run_stage(prop, st, seed, tier)
+        try:
+            rep = run_stage(prop, st, seed, tier)
+        except HarnessError as ex:
+            return i, st, ex, time.time() - t1
+        return i, st, rep, time.time() - t1
+
+    from concurrent.futures import ThreadPoolExecutor
+    solo = [(i, st) for i, st in enumerate(stages) if st.kind != "sharded"]
+    shard = [(i, st) for i, st in enumerate(stages) if st.kind == "sharded"]
+    with ThreadPoolExecutor(max_workers=max(2, NCPU // 2)) as ex:
+        done = list(ex.map(one, solo))
+    for item in shard:
+        done.append(one(item))
+    reports = []
+    for i, st, rep, dt in sorted(done, key=lambda x: x[0]):
+        if isinstance(rep, HarnessError):
+            raise rep
         log("[stage] %s: evals=%d distinct=%d viol_sigs=%d (%.1fs)" % (
             st.label() + ("/t%s" % st.threads if st.threads else ""), rep.get("evaluations", 0),
-            rep.get("distinct_nontrivial", 0), len(rep.get("violations", [])), time.time() - t1))
+            rep.get("distinct_nontrivial", 0), len(rep.get("violations", [])), dt))
         reports.append((st, rep))
     post = spec.get("post")
     if post:
